@@ -9,7 +9,7 @@
    of its operand; harness/c06.py `extra()` TESTS the clause numerically (tests, not theorems). *)
 From Coq Require Import List Bool Arith ZArith NArith QArith Qcanon String Ring Field.
 From Furax Require Import Base.Pytree Model.Op Model.Algebra Model.Denote Model.Wf Model.Exec Model.Inverse
-  Lemmas.DenoteL Lemmas.Sound Lemmas.InverseL.
+  Lemmas.DenoteL Lemmas.Sound Lemmas.MuellerExecL Lemmas.InverseL.
 From Furax Require Model.Axes Lemmas.AxesL.
 Import ListNotations.
 Local Close Scope Q_scope.
@@ -139,6 +139,20 @@ Theorem lazy_inverse_matrix : forall tb r N, as_matrix_lazy_inverse tb r = Some 
     lmul K k0 Qcplus Qcmult (List.length M) M N = lid K k0 k1 (List.length M).
 Proof. exact lazy_inverse_matrix_l. Qed.
 
+(* the shared core model `Algebra.inverse` is `inverse_r` except that it does not recurse into a block
+   that is itself block-diagonal (see c06_nested_blockdiag_example for the difference) *)
+Theorem inverse_agrees_with_core_model : forall (K : Type) (keqb : K -> K -> bool) (k1 : K) (kmul : K -> K -> K)
+  (kinv : K -> K) fuel order (e : op K), wfo e = true -> flat_blocks K e = true ->
+  Algebra.inverse keqb k1 kmul kinv fuel order e = inverse_r K keqb k1 kmul kinv fuel order e.
+Proof. exact inverse_agrees. Qed.
+
+(* second stage: the executable leaf semantics (quarter-turn angles, no measured matrix) satisfies the
+   assumptions if_rot_l / if_rot_r on QU rotations *)
+Theorem exec_rotation_transpose_is_inverse : forall i j sj soj a,
+  winv Exec.K (lsem (R Exec.K j sj soj a)) (lsem (Wrap i WQURotT (R Exec.K j sj soj a))) /\
+  winv Exec.K (lsem (Wrap i WQURotT (R Exec.K j sj soj a))) (lsem (R Exec.K j sj soj a)).
+Proof. exact (fun i j sj soj a => conj (exec_if_rot_l i j sj soj a) (exec_if_rot_r i j sj soj a)). Qed.
+
 Print Assumptions homothety_inv.
 Print Assumptions diag_inv.
 Print Assumptions diag_inv_matrix.
@@ -157,6 +171,8 @@ Print Assumptions inverse_cases.
 Print Assumptions orthogonal_inv_moveaxis.
 Print Assumptions minv_is_inverse.
 Print Assumptions lazy_inverse_matrix.
+Print Assumptions inverse_agrees_with_core_model.
+Print Assumptions exec_rotation_transpose_is_inverse.
 
 (* ---- non-vacuity: the guards and premises are met by concrete operators over Qc ---- *)
 Definition qc (n : Z) : Exec.K := Q2Qc (n # 1).
@@ -197,3 +213,15 @@ Example c06_lazy_example :
        (Some [[(2, 1); (1, 1)]; [(1, 1); (3, 1)]]%Z),
    Some [[(3, 5); (-1, 5)]; [(-1, 5); (2, 5)]]%Z).
 Proof. vm_compute. reflexivity. Qed.
+(* a block-diagonal operator whose first block is block-diagonal: the code inverts it block-wise again
+   (inverse_r), the non-recursive Algebra.inverse wraps the reduced block in a lazy InverseOperator *)
+Example c06_nested_blockdiag_example :
+  let l2 := Node KList [Leaf tt; Leaf tt] in
+  let inner : xop := Block 5 BDiag l2 [Homoth 1 (qc 2) s2; Homoth 2 (qc 4) s2] in
+  let e : xop := Block 9 BDiag l2 [inner; Homoth 3 (qc 8) s2] in
+  x_inverse_r default_order e =
+    Ok (Block 0 BDiag l2 [Block 0 BDiag l2 [Homoth 0 (Q2Qc (1 # 2)) s2; Homoth 0 (Q2Qc (1 # 4)) s2]; Homoth 0 (Q2Qc (1 # 8)) s2]) /\
+  x_inverse default_order e =
+    Ok (Block 0 BDiag l2 [Wrap 0 WInverse (Block 0 BDiag l2 [Homoth 1 (qc 2) s2; Homoth 2 (qc 4) s2]); Homoth 0 (Q2Qc (1 # 8)) s2]) /\
+  flat_blocks Exec.K e = false.
+Proof. vm_compute. repeat split. Qed.
